@@ -127,7 +127,9 @@ def load_findings():
 
 
 def open_findings(prop):
-    return [f for f in load_findings() if f["property"] == prop and f["status"] == "open"]
+    """open findings this check must tolerate: its own, and others' that its scripts can also run into"""
+    return [f for f in load_findings()
+            if f["status"] == "open" and (f["property"] == prop or prop in f.get("also", []))]
 
 
 # ---------------------------------------------------------------- evidence
